@@ -2,9 +2,31 @@
    Model: Ackq/Model.v (sessions/ackqueue.go); specification and statements: Ackq/Spec.v.
    This file only closes statements with proved lemmas. *)
 From Coq Require Import NArith.
-From Ackq Require Import Model Spec ProofsExamples.
+From Ackq Require Import Model Spec ProofsExamples ProofsRefine ProofsFifo.
 Open Scope N_scope.
 
+(* the growing ring with its index returns exactly what the FIFO list returns, for every initial
+   capacity 2^k and every history *)
+Theorem C13_refines : Spec.C13_refines.
+Proof. exact ProofsRefine.refines. Qed.
+Print Assumptions C13_refines.
+
+(* handed back = a prefix of what was registered: at most once, in order, after all earlier ones *)
+Theorem C13_fifo_prefix : Spec.C13_fifo_prefix.
+Proof. exact ProofsFifo.fifo_prefix. Qed.
+Print Assumptions C13_fifo_prefix.
+
+(* only in a terminal state, with the bytes of an acknowledgement that arrived with its identifier *)
+Theorem C13_terminal_ack : Spec.C13_terminal_ack.
+Proof. exact ProofsFifo.terminal_ack. Qed.
+Print Assumptions C13_terminal_ack.
+
+(* acknowledgements for unknown identifiers change nothing *)
+Theorem C13_unknown_ack : Spec.C13_unknown_ack.
+Proof. exact ProofsFifo.unknown_ack. Qed.
+Print Assumptions C13_unknown_ack.
+
+(* non-vacuity: a history that grows the ring while it is wrapped *)
 Theorem C13_instance_wrapped_growth :
   q_outs (q_new (2 ^ 1)) h_wrapped = s_outs s_new h_wrapped.
 Proof. exact ProofsExamples.refines_on_wrapped_growth. Qed.
